@@ -121,6 +121,48 @@ def handleIndx (op : String) (j : Json) : R Json := do
       pure (Json.mkObj [("size", jNat (Indx.bufferSize n a wi wr t)), ("size_u32", jNat (Indx.bufferSizeU32 n a wi wr t))])
   | _ => throw s!"unknown op {op}"
 
+def parseDim (j : Json) : R Cube.Dim := do
+  let es ← (← arr (← fld j "entries")).toList.mapM fun e => do
+    match (← arr e).toList with
+    | [c, r] => pure ((← nat c), (← natList r))
+    | _ => throw "dim entry must be [category, rowids]"
+  pure { entries := es, common := ← fNat j "common" }
+
+def parseDims (j : Json) : R (List Cube.Dim) := do (← arr (← fld j "dims")).toList.mapM parseDim
+
+def jCo (co : Cube.Co) : Json := Json.arr (co.map fun o => match o with | some v => jNat v | none => Json.null).toArray
+
+def jCubeErr : Cube.Err → Json
+  | .indexError c => Json.mkObj [("err", "IndexError"), ("cell", jNats c)]
+  | .shape m => Json.mkObj [("err", "shape"), ("msg", Json.str m)]
+
+def handleCube (op : String) (j : Json) : R Json := do
+  let dims ← parseDims j
+  match op with
+  | "walk" =>
+      pure (Json.arr ((Cube.interactions dims).map fun (co, rows) => Json.arr #[jCo co, jNats rows]).toArray)
+  | "count" =>
+      let N ← fNat j "N"
+      let shape ← match j.getObjVal? "shape" with
+        | .ok v => if v.isNull then pure none else some <$> natList v
+        | .error _ => pure none
+      let exts := match shape with | some s => s | none => dims.map Cube.inferExtent
+      if exts.length ≠ dims.length then pure (jCubeErr (.shape "arity")) else
+      match Cube.fillCount exts (Cube.interactions dims) (Cube.initCount exts N) with
+      | .error e => pure (jCubeErr e)
+      | .ok filled =>
+        let wc := Cube.workCells exts
+        let final := Cube.passes exts (dims.map (·.common)) dims.length filled
+        let cells := Cube.allCells exts
+        pure (Json.mkObj [
+          ("shape", jNats exts),
+          ("filled", jInts (wc.map (Cube.rget filled))),
+          ("diffed", jInts (wc.map (Cube.rget final))),
+          ("counts", jInts (cells.map (Cube.rget final))),
+          ("missing", Json.arr ((cells.filter fun c => Cube.rget final c == 0).map jNats).toArray),
+          ("brute", jNats (cells.map (Cube.brute dims N)))])
+  | _ => throw s!"unknown op {op}"
+
 def handle (j : Json) : R Json := do
   let op ← fStr j "op"
   match op with
@@ -131,6 +173,7 @@ def handle (j : Json) : R Json := do
       let s ← fNat j "size"
       pure (Json.mkObj [("fmt", jNat (Gen.formatWidth s)), ("dtype", Json.str (Gen.wordDtype s).name)])
   | "kern" => handleKern j
+  | "walk" | "count" => handleCube op j
   | "indx_save" | "indx_roundtrip" | "indx_layout" | "indx_load" | "indx_load_prefixes" | "indx_size" => handleIndx op j
   | _ => throw s!"unknown op {op}"
 
